@@ -25,7 +25,7 @@ impl SubscriptionName {
     pub fn try_parse(unparsed: &str) -> Option<Self> {
         // Check that the length of the input is at least as long as something that contains
         // a valid subscription name.
-        if unparsed.len() <= PROJECT_PREFIX_LEN + SUBSCRIPTION_PREFIX_LEN + 2 {
+        if unparsed.len() < PROJECT_PREFIX_LEN + SUBSCRIPTION_PREFIX_LEN + 2 {
             return None;
         }
 
@@ -37,10 +37,21 @@ impl SubscriptionName {
         // Extract the project ID.
         let project_id = unparsed.get(PROJECT_PREFIX_LEN..)?;
         let project_id = project_id.get(..project_id.find('/')?)?;
+        if project_id.is_empty() {
+            return None;
+        }
 
         // Extract the subscription ID
         let start = PROJECT_PREFIX_LEN + project_id.len() + SUBSCRIPTION_PREFIX_LEN;
-        let subscription_id = unparsed.get(start..).map(|s| s.trim_matches('/'))?;
+
+        // The project ID must be followed by the literal segment.
+        if unparsed.get(PROJECT_PREFIX_LEN + project_id.len()..start)? != SUBSCRIPTION_PREFIX {
+            return None;
+        }
+
+        // The ID is taken as it is (so that the canonical name parses back to the same
+        // name), and it must not be empty.
+        let subscription_id = unparsed.get(start..).filter(|id| !id.is_empty())?;
 
         Some(SubscriptionName {
             project_id: project_id.into(),
